@@ -409,6 +409,29 @@ def rule_e(ctx):
     ctx.floor(R, 1)
 
 
+def rule_f(ctx):
+    R = "C08.f"
+    ctx.rule(R, "a fresh set-up is fresh: each back-end set-up method (setup_direct_solver / setup_amg_solver / setup_cg_solver / "
+             "setup_ksp_solver) builds what it binds from the matrix it is given -- hidden-state analysis with the set-up method as entry: "
+             "no attribute that the method itself writes is read before it is written in the same call (a hierarchy or preconditioner "
+             "kept from the previous matrix would be applied to the new one)")
+    from .c16 import _report_state
+
+    m = ctx.model
+    base = m.cls(WAS, BASE)
+    n = 0
+    for name in ("setup_direct_solver", "setup_amg_solver", "setup_cg_solver", "setup_ksp_solver"):
+        f = m.method(base, name)
+        if f is None:
+            continue
+        n += 1
+        ctx.instance(R)
+        sa_ = StateAnalysis(m, base, [name])
+        k_ = _report_state(ctx, R, sa_, name, f"a linear solve after {name}")
+        ctx.ob(R, f.qname, f"{name}: hidden-state analysis completed", True, f"{k_} cross-call read(s), written attributes {sorted(sa_.call_written)}", f.node)
+    ctx.floor(R, 3)
+
+
 def run(ctx):
     m = ctx.model
     ctx.consult(WAS)
@@ -419,6 +442,7 @@ def run(ctx):
     rule_c(ctx, sa, fa, acc_f, ls)
     rule_d(ctx, sa, fa, ta, acc_f, acc_t, setup, ls)
     rule_e(ctx)
+    rule_f(ctx)
     # callers of linear_solve: a reused factorisation must belong to the matrix being solved (C04.g)
     from . import c04
     from .common import shared
